@@ -38,7 +38,8 @@ EXPLANATION = (
     "resolver each call that resolves a nested statement (list, case item) is unconditional or guarded by an idiom that implies an "
     "error was already reported (the guarding expression failed to resolve; no label of a labelled case item resolved). "
     "(R9) a pending USE/REFERENCE item is matched under the key it is stored under. (R10) when a look-up wrapper's optional \"search subtypes too\" request parameter is NULL, every reachable call passes NULL for the callee's search-mode parameter (mode parameters discovered as NULL-tested parameters guarding recursive search calls). Not decided: that each malformed schema reaches its detection branch; agreement on warnings."
-    " (R11) wherever a DICTdefine is guarded by a test of the result of a DICTlookup made in the same function (SCHEMAdefine_use, SCHEMAdefine_reference, TYPEcreate_user_defined_tag), the look-up reads the table the definition goes into, under the same key: otherwise a conflicting second import is accepted and a repeated identical one is rejected.")
+    " (R11) wherever a DICTdefine is guarded by a test of the result of a DICTlookup made in the same function (SCHEMAdefine_use, SCHEMAdefine_reference, TYPEcreate_user_defined_tag), the look-up reads the table the definition goes into, under the same key: otherwise a conflicting second import is accepted and a repeated identical one is rejected."
+    " (R6N, shared with C06) a local pointer of the resolver is not dereferenced where every reaching definition is the null constant: a tool that crashes while formatting a diagnostic delivers no verdict.")
 
 STAGES = ["EXPRESSparse", "EXPRESSresolve"]
 DUMP_CODES = {"BAIL_OUT", "CORRUPTED_TYPE"}
